@@ -176,13 +176,14 @@ CHECKS = {
                        "(one for the error device); the harness keeps the configuration the sequence denotes (set replaces, add appends, "
                        "remove deletes, reset restores defaults) and a probe record of a chosen severity must reach exactly the writers the "
                        "routing rule selects, each once; a LevelSettable destination must have been told the severity before its Write.",
-        "bounds": {"quick": "sequences of <=2 operations (54508 paths) on a fresh logger; New(...) with <=2 writer options; 10 probe severities",
+        "bounds": {"quick": "sequences of <=2 operations on a fresh logger, 10 probe severities; New(...) with <=2 writer options; inductive step: ONE operation from every configuration with <=2 normal, <=1 error and <=1 per-level (Info) writers over the pool (136080 states x operations x probes), which covers histories of any length over such configurations",
                    "thorough": "sequences of 3 operations; New(...) with <=3 options"},
         "outside": "longer sequences; OffLevel probes (discarded by design)",
         "assumptions": ["os.Stdout/os.Stderr are recording sinks"],
         "runs": [
             {"harness": "VH_C03", "quick": {"steps": 2}, "thorough": {"steps": 3}, "covers": ["C03:probed"]},
             {"harness": "VH_C03N", "quick": {"opts": 2}, "thorough": {"opts": 3}, "covers": ["C03N:probed"]},
+            {"harness": "VH_C03I", "covers": ["C03I:probed"]},
         ],
     },
     "C13": {
